@@ -114,7 +114,7 @@ def unit_line(ctx):
                 exp = (np.roll(v, -1) - 2 * v + np.roll(v, 1)) / cs ** 2
             ctx.check()
             s = np.abs(v).max() * scale_all
-            if np.any(np.abs(out[:, c] - exp) > rel * (s + np.abs(exp))):
+            if C.gt(np.abs(out[:, c] - exp), rel * (s + np.abs(exp))):
                 ctx.fail("diff/periodic-allvalid/not-centred-difference",
                          f"ring of {L} cells, probe {c}: got {out[:, c].tolist()} expected {exp.tolist()}",
                          instance=inst)
@@ -171,7 +171,7 @@ def unit_line(ctx):
                     exp = dg * (dg - 1) * u ** (dg - 2) if dg >= 2 else np.zeros(n)
                 s = np.abs(vals).max() * scale_all
                 ctx.check()
-                if np.any(np.abs(got - exp) > rel * (s + np.abs(exp))):
+                if C.gt(np.abs(got - exp), rel * (s + np.abs(exp))):
                     ctx.fail(f"diff/polynomial-inexact/order{order}",
                              f"run {r} degree {dg}: got {got.tolist()} expected {exp.tolist()}", instance=inst)
                     break
@@ -186,7 +186,7 @@ def unit_line(ctx):
                         exp = dg * (dg - 1) * xx ** (dg - 2) if dg >= 2 else np.zeros(n)
                     s = np.abs(xx ** dg).max() * scale_all
                     ctx.check()
-                    if np.any(np.abs(got - exp) > rel * (s + np.abs(exp))):
+                    if C.gt(np.abs(got - exp), rel * (s + np.abs(exp))):
                         ctx.fail(f"diff/polynomial-inexact/order{order}",
                                  f"run {r} monomial x^{dg}: got {got.tolist()} expected {exp.tolist()}",
                                  instance=inst)
@@ -196,7 +196,7 @@ def unit_line(ctx):
         exp = M @ v
         s = (np.abs(M) @ np.abs(v)).max() + 1e-300
         ctx.check()
-        if np.any(np.abs(out[:, c] - exp) > rel * s):
+        if C.gt(np.abs(out[:, c] - exp), rel * s):
             ctx.fail("diff/not-linear", f"probe {c}: D(f)={out[:, c].tolist()} but sum of impulse responses {exp.tolist()}",
                      instance=inst)
             break
@@ -210,7 +210,7 @@ def unit_line(ctx):
         got = fk.diff("x", order=order, restrict2valid=restrict).array[:, 0]
         s = (np.abs(M) @ (np.abs(comb) + np.abs(comb2))).max() + 1e-300
         ctx.check()
-        if np.any(np.abs(got - exp) > rel * s):
+        if C.gt(np.abs(got - exp), rel * s):
             ctx.fail(f"diff/value-type/{kind}", f"{kind}-typed values {vals[:, 0].tolist()}: D(f)={got.tolist()} expected "
                      f"{exp.tolist()} (from the impulse responses)", instance=inst)
     # (ix) a large constant added to the data does not change the derivative (linearity + D(const) = 0 on every run /
@@ -223,7 +223,7 @@ def unit_line(ctx):
         exp = M @ v
         s = (np.abs(M) @ np.abs(big[:, c])).max() + 1e-300   # rounding of the large values enters with |M|
         ctx.check()
-        if np.any(np.abs(gb[:, c] - exp) > 1e-12 * s + rel * (np.abs(M) @ np.abs(v)).max()):
+        if C.gt(np.abs(gb[:, c] - exp), 1e-12 * s + rel * (np.abs(M) @ np.abs(v)).max()):
             ctx.fail("diff/not-linear/large-constant-offset",
                      f"D(c + g) differs from D(g) for c={big[0, c] - v[0]:g}: {gb[:, c].tolist()} vs {exp.tolist()}", instance=inst)
             break
@@ -244,8 +244,8 @@ def unit_line(ctx):
         exp = np.roll(out, 1, axis=0)
         s = np.abs(probes).max(axis=0) * scale_all
         ctx.check()
-        if np.any(np.abs(ds.array - exp) > rel * (s[None, :] + np.abs(exp))):
-            w = np.argwhere(np.abs(ds.array - exp) > rel * (s[None, :] + np.abs(exp)))[0]
+        if C.gt(np.abs(ds.array - exp), rel * (s[None, :] + np.abs(exp))):
+            w = np.argwhere(~(np.abs(ds.array - exp) <= rel * (s[None, :] + np.abs(exp))))[0]
             ctx.fail("diff/periodic/not-shift-invariant",
                      f"shift by one cell: cell {int(w[0])} probe {int(w[1])}: D(shift f)={ds.array[tuple(w)]} "
                      f"shift(D f)={exp[tuple(w)]}", instance=inst)
@@ -335,7 +335,7 @@ def unit_embed(ctx):
             got = out.array[sl + (comp,)]
             ctx.check()
             s = np.abs(line).max() / cell[axis] ** order
-            if np.any(np.abs(got - exp) > 1e-9 * (s + np.abs(exp))):
+            if C.gt(np.abs(got - exp), 1e-9 * (s + np.abs(exp))):
                 ctx.fail("diff/nd-line-differs-from-1d",
                          f"line {lidx} comp {comp} pattern {linepat[lidx]:b}: got {got.tolist()} 1-D gives {exp.tolist()}")
                 return
@@ -422,8 +422,8 @@ def unit_periodic_geometry(ctx):
     ctx.observe(np.round(got * cs ** order, 9))
     ctx.check()
     scale = np.abs(vals).max() / cs ** order
-    if got.shape != ref.shape or np.any(np.abs(got - ref) > 1e-9 * (scale + np.abs(ref))):
-        w = tuple(int(i) for i in np.argwhere(np.abs(got - ref) > 1e-9 * (scale + np.abs(ref)))[0]) if got.shape == ref.shape else ()
+    if got.shape != ref.shape or C.gt(np.abs(got - ref), 1e-9 * (scale + np.abs(ref))):
+        w = tuple(int(i) for i in np.argwhere(~(np.abs(got - ref) <= 1e-9 * (scale + np.abs(ref))))[0]) if got.shape == ref.shape else ()
         ctx.fail("diff/periodic/depends-on-where-the-lattice-sits", f"cell {cs!r}, lattice starting at {org} cells: at {w} got "
                  f"{got[w] if w else got.shape!r}, the unit reference ring gives {ref[w] if w else ref.shape!r} (scaled)", instance=ctx.key())
 
